@@ -28,7 +28,7 @@ package libmem
 
 //@ pure awf(a *Allocator) bool = a != nil && a.zones != nil && a.users != nil && a.requests != nil && jwf(a.journal) &&
 //@    (a.journal != nil ==> a.journal.updates != a.users && a.journal.reverts != a.users) &&
-//@    (forall z NodeMask :: z in a.zones ==> a.zones[z] != nil && a.zones[z].users != nil) &&
+//@    (forall z NodeMask :: z in a.zones ==> a.zones[z] != nil && a.zones[z].users != nil && a.zones[z].users != a.requests) &&
 //@    (forall z1 NodeMask, z2 NodeMask :: z1 in a.zones && z2 in a.zones && z1 != z2 ==> a.zones[z1] != a.zones[z2] && a.zones[z1].users != a.zones[z2].users) &&
 //@    (forall id string :: id in a.users ==> a.users[id] != 0 && a.users[id] in a.zones && id in a.zones[a.users[id]].users) &&
 //@    (forall z NodeMask, id string :: z in a.zones && id in a.zones[z].users ==> id in a.users && a.users[id] == z && a.zones[z].users[id] != nil && a.zones[z].users[id].id == id)
@@ -36,6 +36,14 @@ package libmem
 // Formatting helpers used only in log messages (declared, not verified).
 //@ effect zoneName pure
 //@ effect prettySize pure
+// State dumps and the consistency self-check only read the allocator and write log messages.
+//@ effect (*Allocator).DumpState noop
+//@ effect (*Allocator).DumpConfig noop
+//@ effect (*Allocator).DumpNodes noop
+//@ effect (*Allocator).DumpRequests noop
+//@ effect (*Allocator).DumpZones noop
+//@ effect (*Allocator).dumpOvercommit noop
+//@ effect (*Allocator).validateState noop
 
 // zoneType / zoneCapacity only read allocator state (their values matter for C07, not for C06).
 //@ func (*Allocator).zoneType ints=bv64 tags=C06
@@ -54,6 +62,8 @@ package libmem
 //@   ensures[C06] a.journal != nil && old(req.id in a.journal.reverts) ==> dom(a.journal.reverts) == old(dom(a.journal.reverts)) && vals(a.journal.reverts) == old(vals(a.journal.reverts))
 //@   ensures[C06] a.journal != nil && !old(req.id in a.journal.reverts) ==> dom(a.journal.reverts) == upd(old(dom(a.journal.reverts)), req.id, true) && vals(a.journal.reverts) == upd(old(vals(a.journal.reverts)), req.id, 0)
 //@   ensures[C06] a.journal != nil ==> forall id string :: origd(a, id) == old(origd(a, id)) && origv(a, id) == old(origv(a, id))
+//@   ensures[C06] forall k string :: k != req.id ==> (k in a.zones[zone].users) == old(zone in a.zones && k in a.zones[zone].users) && (old(zone in a.zones) ==> a.zones[zone].users[k] == old(a.zones[zone].users[k]))
+//@   ensures[C06] a.requests == old(a.requests) && a.journal == old(a.journal)
 
 //@ func (*Allocator).zoneRemove ints=bv64
 //@   requires awf(a)
@@ -67,6 +77,8 @@ package libmem
 //@   ensures[C06] hit && a.journal != nil && old(id in a.journal.reverts) ==> dom(a.journal.reverts) == old(dom(a.journal.reverts)) && vals(a.journal.reverts) == old(vals(a.journal.reverts))
 //@   ensures[C06] hit && a.journal != nil && !old(id in a.journal.reverts) ==> dom(a.journal.reverts) == upd(old(dom(a.journal.reverts)), id, true) && vals(a.journal.reverts) == upd(old(vals(a.journal.reverts)), id, zone)
 //@   ensures[C06] a.journal != nil ==> forall id string :: origd(a, id) == old(origd(a, id)) && origv(a, id) == old(origv(a, id))
+//@   ensures[C06] hit ==> forall k string :: k != id ==> (k in a.zones[zone].users) == old(k in a.zones[zone].users) && a.zones[zone].users[k] == old(a.zones[zone].users[k])
+//@   ensures[C06] forall z NodeMask :: (z in a.zones) == old(z in a.zones) && a.zones[z] == old(a.zones[z])
 
 //@ func (*Allocator).zoneMove ints=bv64
 //@   requires awf(a) && req != nil && zone != 0 && (req.id in a.users ==> a.zones[a.users[req.id]].users[req.id] == req)
@@ -105,3 +117,25 @@ package libmem
 //@   ensures[C06,C07] a.journal == nil && awf(a)
 //@   ensures[C06,C07] !(req.id in result)
 //@   ensures[C06,C07] forall id string :: id != req.id ==> (id in result) == old(id in a.journal.updates) && result[id] == old(a.journal.updates[id])
+
+// Requests known to the allocator are the ones stored in the zones.
+//@ pure rwf(a *Allocator) bool = forall z NodeMask, id string :: z in a.zones && id in a.zones[z].users ==> id in a.requests && a.requests[id] == a.zones[z].users[id]
+
+//@ func (*Allocator).revertJournal ints=bv64
+//@   requires awf(a) && rwf(a)
+//@   requires a.journal != nil ==> forall id string :: id in a.journal.reverts ==> id in a.users
+//@   requires req != nil ==> req.id in a.requests
+//@   ensures[C06] a.journal == nil && awf(a) && result1 == nil
+//@   ensures[C06] old(a.journal) == nil ==> result0 == nil && dom(a.users) == old(dom(a.users)) && vals(a.users) == old(vals(a.users)) && dom(a.requests) == old(dom(a.requests)) && vals(a.requests) == old(vals(a.requests))
+//@   ensures[C06] old(a.journal) != nil ==> forall id string :: (id in a.users) == old(origd(a, id)) && a.users[id] == old(origv(a, id))
+//@   ensures[C06] old(a.journal) != nil ==> result0 == old(a.journal.updates) && dom(result0) == old(dom(a.journal.updates)) && vals(result0) == old(vals(a.journal.updates))
+//@   ensures[C06] old(a.journal) != nil && req == nil ==> dom(a.requests) == old(dom(a.requests)) && vals(a.requests) == old(vals(a.requests))
+//@   ensures[C06] old(a.journal) != nil && req != nil ==> dom(a.requests) == upd(old(dom(a.requests)), req.id, false) && vals(a.requests) == upd(old(vals(a.requests)), req.id, nil)
+//@ loop 0 in (*Allocator).revertJournal at "range j.reverts"
+//@   modifies a.users[*], a.zones[*], maps map[string]*Request, comp Request.zone, comp Zone.nodes, comp Zone.types, comp Zone.capacity, comp Zone.users
+//@   invariant awf(a) && a.journal == nil && a.requests == old(a.requests) && a.users == old(a.users)
+//@   invariant dom(a.requests) == old(dom(a.requests)) && vals(a.requests) == old(vals(a.requests))
+//@   invariant forall id string :: seen(id) ==> id in j.reverts
+//@   invariant forall id string :: seen(id) ==> (id in a.users) == (j.reverts[id] != 0) && a.users[id] == j.reverts[id]
+//@   invariant forall id string :: !seen(id) ==> (id in a.users) == old(id in a.users) && a.users[id] == old(a.users[id])
+//@   invariant forall z NodeMask, id string :: z in a.zones && id in a.zones[z].users ==> id in a.requests && a.requests[id] == a.zones[z].users[id]
